@@ -271,6 +271,12 @@ func (i *dbIter) prev() bool {
 				return false
 			}
 			if !i.iter.Prev() {
+				if err := i.iter.Error(); err != nil {
+					// Not the start: entries behind the failure are
+					// unknown, the candidate may be outdated.
+					i.setErr(err)
+					return false
+				}
 				break
 			}
 		}
